@@ -117,6 +117,12 @@ def run_job(job):
                 break
             model = dict(model, __salt__=salt)
             rp = replay(pid, hname, params, model, opts)
+        # solver models tend to be degenerate (many zeros); a generic defect also shows on generic inputs: the replay decides
+        for salt in (0, 2):
+            if rp['failed'] or (rp['error'] and not rp['invalid']) or kind not in ('sat', 'unknown'):
+                break
+            model = dict(__salt__=salt)
+            rp = replay(pid, hname, params, model, opts)
         if kind == 'exception' and rp['error'] and not rp['failed'] and rp['error'].split(':')[0] != detail.split(':')[0]:
             R['inconclusive'].append(dict(label=label, why='symbolic path raised %s but the concrete replay raised %s' % (detail[:200], rp['error'][:200])))
             return False
